@@ -252,7 +252,7 @@ def run(tier, seed):
     for f in others[0]["fns"].values():
         f["uses_builtins"] = True
     # ... and reads tuples that are equal to, but not the same as, tuples of the target programs ((1.0, 2.0) == (1, 2))
-    for nm, val in (("OV_FLOATS", "(1.0, 2.0)"), ("OV_BOOLS", "(True, 2)")):
+    for nm, val in (("OV_FLOATS", "(1.0, 2.0)"), ("OV_MIXED", "(1, 2.0)")):
         ov = gen.add_var(others[0], others[0]["fns"][others[0]["entry"]]["module"], nm, "tuplef", value=val)
         others[0]["fns"][others[0]["entry"]]["reads"].append([ov, "bare"])
     jobs = [("prog", (i, p, others, tier)) for i, p in enumerate(ps)]
@@ -285,7 +285,7 @@ def replay(payload):
         others = [progs.random_program(core.rng_for(0, "c03o", i), "c3o%d" % i) for i in range(8)]
         for f in others[0]["fns"].values():
             f["uses_builtins"] = True
-        for nm, val in (("OV_FLOATS", "(1.0, 2.0)"), ("OV_BOOLS", "(True, 2)")):
+        for nm, val in (("OV_FLOATS", "(1.0, 2.0)"), ("OV_MIXED", "(1, 2.0)")):
             ov = gen.add_var(others[0], others[0]["fns"][others[0]["entry"]]["module"], nm, "tuplef", value=val)
             others[0]["fns"][others[0]["entry"]]["reads"].append([ov, "bare"])
         rep.merge(program_job((0, c["program"], others, "thorough")))
